@@ -66,6 +66,15 @@ type MapV struct {
 	keys []interface{}
 }
 
+// rangeIter is the state of a range loop over a map or a string (ssa.Range / ssa.Next).
+type rangeIter struct {
+	m     *MapV
+	keys  []interface{}
+	pos   int
+	str   string
+	isStr bool
+}
+
 // ErrObj is the opaque error produced by the fmt.Errorf / errors.New stubs.
 type ErrObj struct{ msg string }
 
